@@ -96,11 +96,13 @@ class GpOptimiser:
         optimizer: str = "bfgs",
         n_processes: int = 1,
     ):
-        self.x = x if isinstance(x, ndarray) else array(x)
+        # (the data are held as the optimiser's own copies: it appends every added
+        # evaluation to them, whatever the caller does with its arrays in the meantime)
+        self.x = array(x)
         if self.x.ndim == 1:
             self.x = self.x.reshape([self.x.size, 1])
-        self.y = y if isinstance(y, ndarray) else array(y)
-        self.y_err = y_err if isinstance(y_err, (ndarray, type(None))) else array(y_err)
+        self.y = array(y)
+        self.y_err = None if y_err is None else array(y_err)
 
         self.bounds = bounds
         self.kernel = kernel
